@@ -2113,6 +2113,19 @@ def run_fork_projects(ctx, root, out):
         by_variant[proj["variant"]] = by_variant.get(proj["variant"], 0) + 1
         procs += len(res["logs"])
         obj = fork_judge(proj, 0, res)
+        if obj is not None and "stdout of the script changed" not in obj["what"] and "exit status" not in obj["what"] \
+                and ("unnamed functions" in obj["what"] or "never shown under their name" in obj["what"]):
+            # open finding F-C19-FORK-SYMTAB-RACE (timing dependent): names first interned by a forked child are now
+            # and then missing from python.fake.sym.  It counts as that finding only if the very same project passes
+            # when it is recorded again: a defect that is really in the tree fails both times and is reported.
+            proj["runs"] = proj["runs"] + proj["runs"][:1]
+            obj2 = fork_judge(proj, 1, fork_run_one(ctx, out, proj, 1))
+            ent = next((f for f in C.known_findings("C19") if f["id"] == "F-C19-FORK-SYMTAB-RACE" and f["status"] == "open"), None)
+            if obj2 is None and ent is not None:
+                C.known(ctx, ent, "F-C19-FORK-SYMTAB-RACE functions first called in a forked child (%s variant) were recorded "
+                                  "without a name in one run and correctly in the repeated run (timing dependent; %s)"
+                        % (proj["variant"], obj["what"][:150]))
+                obj = None
         if obj is not None:
             fails += 1
             reports.append(("e2e-fork%d-%s" % (proj["idx"], proj["variant"]), obj))
